@@ -78,7 +78,7 @@ def comp_desc(c):
 def oracle(rng, tier):
     comps = gens.builtin_components()
     while True:
-        c = rng.choice(comps) if rng.random() < 0.3 else gens.random_component(rng)
+        c = rng.choice(comps) if rng.random() < 0.3 else gens.random_component(rng, any_c=True)
         ok, detail, extra = check_component(c, rng)
         case = comp_desc(c)
         case.update(extra)
